@@ -919,6 +919,15 @@ def run_C16(ctx):
         st['thr'] = gen.in_unit(rng, kind, thr, True)
         op['stop'] = st
         spec['_unstopped'] = True
+        r = rng.random()
+        if r < 0.25:
+            # the same StopCondition object reused after reset and re-applied initial conditions
+            spec['ops'] = [op, {'op': 'reset'}, {'op': 'init', 'pos': spec['init']['pos'], 'speed': spec['init']['speed']}, dict(op)]
+        elif r < 0.4:
+            # ... or for a continuation
+            op2, _, _ = gen.run_op(rng, dt_si=dt, steps=(2, 5), unit='sec')
+            op2['stop'] = st
+            spec['ops'] = [op, op2]
         specs.append(spec)
     for i in range(0, len(specs), 200):
         batch = specs[i:i + 200]
@@ -927,6 +936,8 @@ def run_C16(ctx):
         eval_dynamics(ctx, batch, ['C16'])
         # the stopped run is a prefix of the unstopped one
         for s in batch:
+            if len(s['ops']) != 1:
+                continue
             trs, _ = sim.simulate(s)
             s0 = json.loads(json.dumps(s))
             s0['ops'][0]['stop'] = None
